@@ -26,7 +26,7 @@ class RunRecord:
                  "task_before", "task_after", "steps", "digest", "sched_digest", "counters", "nevents", "switches",
                  "deadlock", "step_limit", "thread_crashes", "events", "optimizer", "config_obj", "task_obj",
                  "result_dump", "raised_injected", "decisions_len", "nthreads", "init_positions_by_ctx", "ctx_firsts",
-                 "base_init", "via", "extra_results")
+                 "base_init", "via", "extra_results", "earlier_results", "wall_limit")
 
     def __init__(self):
         for s in self.__slots__:
@@ -82,8 +82,9 @@ def dump_agent(a):
     return copy.deepcopy(d)
 
 
-def make_config(optimizer_name: str, params: dict):
-    """Build the real config object through the real validators."""
+def make_config(optimizer_name: str, params: dict, shared_es=None):
+    """Build the real config object through the real validators.  ``shared_es``: an EarlyStopping *object* the caller
+    uses for several configurations (a policy defined once and passed around)."""
     import json
     import pyvolutionary as pv
     here = os.path.dirname(os.path.dirname(os.path.abspath(__file__)))
@@ -92,7 +93,7 @@ def make_config(optimizer_name: str, params: dict):
     p = dict(params)
     es = p.get("early_stopping")
     if isinstance(es, dict):
-        p["early_stopping"] = pv.EarlyStopping(**es)
+        p["early_stopping"] = shared_es if shared_es is not None else pv.EarlyStopping(**es)
     return cfg_cls(**p)
 
 
@@ -126,8 +127,39 @@ def _freeze(x):
         return repr(x)
 
 
+def _dump_result_light(res):
+    return {"evolution": [[(copy.deepcopy(a.position), a.cost, a.fitness) for a in g.agents] for g in res.evolution],
+            "rates": list(res.rates), "best": (copy.deepcopy(res.best_solution.position), res.best_solution.cost,
+                                               res.best_solution.fitness)}
+
+
+def _scribble_result(res):
+    try:
+        for g in res.evolution:
+            for a in g.agents:
+                if isinstance(a.position, list):
+                    for i in range(len(a.position)):
+                        if isinstance(a.position[i], list):
+                            a.position[i].reverse()
+                        else:
+                            a.position[i] = 1e300
+                a.cost = -1e300
+                a.fitness = 1e300
+            g.agents.reverse()
+            del g.agents[1:]
+        res.rates.append(123.0)
+        res.rates.reverse()
+        res.best_solution.cost = -1e300
+        if isinstance(res.best_solution.position, list):
+            res.best_solution.position.clear()
+        res.evolution.reverse()
+    except Exception:
+        pass
+
+
 def install_observers(sim, rec, snapshots=True):
     """Wire the generic observers of engine G into ``sim.obs``."""
+    rec.earlier_results = []
     rec.snapshots = []
     rec.init_positions_by_ctx = {}
     rec.obj_calls = 0
@@ -233,6 +265,7 @@ def finish_record(sim, rec):
     rec.switches = sim.switches
     rec.deadlock = sim.deadlock
     rec.step_limit = sim.step_limit_hit
+    rec.wall_limit = sim.wall_limit_hit
     rec.thread_crashes = sim.obs.get("thread_crashes", [])
     rec.events = sim.events
     rec.decisions_len = len(sim.decisions)
@@ -249,7 +282,19 @@ def run_scenario(desc, keep_events=0, event_kinds=None, pre_ops=None) -> RunReco
     late = bool(desc["task"].get("late") or desc["task"]["objective"].get("user_state"))
     # (a task whose class is defined late / whose objective depends on the user's module state is built after the history)
     task = tasks.build_task(dict(desc["task"], late=False)) if not late else None
-    cfg = make_config(desc["optimizer"], desc["config"])
+    shared_es = None
+    if desc.get("shared_early_stopping") and isinstance(desc["config"].get("early_stopping"), dict):
+        # one EarlyStopping object, defined once by the caller and used by every configuration of the scenario: built
+        # first for the OTHER configuration (the order a tuner's grid or a script may well produce)
+        import pyvolutionary as _pv0
+        shared_es = _pv0.EarlyStopping(**desc["config"]["early_stopping"])
+        other = dict(desc["shared_early_stopping"])
+        other["early_stopping"] = dict(desc["config"]["early_stopping"])
+        try:
+            make_config(desc["optimizer"], other, shared_es=shared_es)
+        except Exception:
+            pass
+    cfg = make_config(desc["optimizer"], desc["config"], shared_es=shared_es)
     opt = cls(cfg, debug=True) if desc.get("debug") else cls(cfg)
     rec.optimizer, rec.config_obj, rec.task_obj = opt, cfg, task
     import pyvolutionary.abstract as _abs
@@ -274,8 +319,21 @@ def run_scenario(desc, keep_events=0, event_kinds=None, pre_ops=None) -> RunReco
                     ht = tasks.build_task(h["task"])
                     if h.get("reuse_object"):
                         reuse = ht
-                    ho = opt if h.get("instance", "same") == "same" else cls(make_config(desc["optimizer"], desc["config"]))
+                    if h.get("instance", "same") == "same":
+                        ho = opt
+                    elif h.get("shared_config"):
+                        ho = cls(cfg)            # another optimizer built on the very same configuration object
+                        sim.count("history_shared_config_object")
+                    else:
+                        ho = cls(make_config(desc["optimizer"], desc["config"]))
                     hres = ho.optimize(ht, mode=h.get("mode", "serial"), workers=h.get("workers"))
+                    if h.get("keep_result"):
+                        # the caller keeps the earlier result: it must still say the same after the later runs
+                        rec.earlier_results.append((hres, _dump_result_light(hres)))
+                    elif h.get("scribble_result"):
+                        # ... or edits it in place (sorting, trimming, rescaling for a plot) before running again
+                        _scribble_result(hres)
+                        sim.count("history_result_scribbled")
                     if h.get("mode", "serial") != "serial":
                         sim.count("history_runs_pooled")
                     sim.count("history_runs_completed")
@@ -354,7 +412,8 @@ def run_scenario(desc, keep_events=0, event_kinds=None, pre_ops=None) -> RunReco
                 rec.exc_type = type(e).__name__
                 rec.exc_msg = str(e)[:300]
                 rec.exc_origin = exc_origin(e)
-                rec.raised_injected = faults_mod.is_injected(e)
+                rec.raised_injected = faults_mod.is_injected(e) or (
+                    type(e).__name__ == "BrokenProcessPool" and sim.counters.get("fault_fired:worker_crash", 0) > 0)
     finally:
         try:
             sim.teardown()
